@@ -216,6 +216,10 @@ func (r Wrapper) ResolveStatusCode(err error) int {
 func (r Wrapper) HandleTokenRequest(ctx context.Context, request HandleTokenRequestRequestObject) (HandleTokenRequestResponseObject, error) {
 	err := r.subjectExists(ctx, request.SubjectID)
 	if err != nil {
+		if request.Body.GrantType == oauth.AuthorizationCodeGrantType && request.Body.Code != nil {
+			// a failing request could indicate a stolen authorization code. always burn a code once presented.
+			_ = r.oauthCodeStore().Delete(*request.Body.Code)
+		}
 		return nil, err
 	}
 	switch request.Body.GrantType {
